@@ -1,5 +1,6 @@
 import M3d.Gen.Kernels
 import M3d.Model.Bounded
+import M3d.Model.BoundedPoly
 import Mathlib.Tactic.Ring
 import Mathlib.Tactic.SplitIfs
 import Mathlib.Tactic.Tauto
@@ -166,5 +167,84 @@ theorem rect_contains (lo hi p : Pt K) :
 
 theorem linear_constraint_contains (n : Pt K) (m : K) (p : Pt K) :
     model3d.LinearConstraint_Contains ⟨gp n, m⟩ (gp p) = decide (pdot p n ≤ m) := rfl
+
+/-! ## the linear algebra of `ConvexPolytope.vertex` (3-D): `Matrix3.Det`, `Matrix3.MulColumnInv`
+
+`vertex` builds `Matrix3{l1.Normal.X, l1.Normal.Y, l1.Normal.Z, l2.Normal…, l3.Normal…}` (rows = normals);
+the model's `det3` / `mulColInv3` (`M3d/Model/BoundedPoly.lean`) are the regenerated `Det` / `MulColumnInv`
+of that matrix, operation for operation (`rfl`). -/
+
+@[reducible] def rows3 (a b c : Pt K) : model3d.Matrix3 K := ⟨a.x, a.y, a.z, b.x, b.y, b.z, c.x, c.y, c.z⟩
+
+theorem matrix3_det (a b c : Pt K) : model3d.Matrix3_Det (rows3 a b c) = det3 a b c := rfl
+
+theorem matrix3_mulColumnInv (a b c mx : Pt K) (det : K) :
+    model3d.Matrix3_MulColumnInv (rows3 a b c) (gp mx) det = gp (mulColInv3 a b c mx det) := rfl
+
+/-! ## the 2-D twins (`model2d`): `Coord`, `Circle`, `Capsule`, `Rect`, `LinearConstraint`, `Matrix2`
+
+A 2-D coordinate is a `Pt` whose third slot is unused (`gp2` drops it); the 2-D solids of the C03 trees are
+the `d3 = false` instances of the same model definitions. -/
+
+@[reducible] def gp2 (a : Pt K) : model2d.Coord K := ⟨a.x, a.y⟩
+
+theorem min2_eq (a b : Pt K) : model2d.Coord_Min (gp2 a) (gp2 b) = gp2 (pmin a b) := by
+  simp [model2d.Coord_Min, pmin, mk3, mn_eq]
+theorem max2_eq (a b : Pt K) : model2d.Coord_Max (gp2 a) (gp2 b) = gp2 (pmax a b) := by
+  simp [model2d.Coord_Max, pmax, mk3, mx_eq]
+theorem addScalar2_eq (a : Pt K) (s : K) : model2d.Coord_AddScalar (gp2 a) s = gp2 (paddS a s) := rfl
+
+/-- `Circle.Min()/Max()` are the X/Y part of the box of `sphereS false`. -/
+theorem circle_bounds (c : Pt K) (r : K) :
+    model2d.Circle_Min ⟨gp2 c, r⟩ = gp2 (sphereS false c r).box.lo ∧
+    model2d.Circle_Max ⟨gp2 c, r⟩ = gp2 (sphereS false c r).box.hi := ⟨rfl, rfl⟩
+
+/-- `model2d.Capsule.Min()/Max()` are the X/Y part of `capsuleBox`. -/
+theorem capsule2_bounds (p1 p2 : Pt K) (r : K) :
+    model2d.Capsule_Min ⟨gp2 p1, gp2 p2, r⟩ = gp2 (capsuleBox p1 p2 r).lo ∧
+    model2d.Capsule_Max ⟨gp2 p1, gp2 p2, r⟩ = gp2 (capsuleBox p1 p2 r).hi := by
+  constructor
+  · simp only [model2d.Capsule_Min, capsuleBox, min2_eq, addScalar2_eq]
+  · simp only [model2d.Capsule_Max, capsuleBox, max2_eq, addScalar2_eq]
+
+/-- `Circle.Contains` (`coord.Dist(center) <= radius`) is `sphereContainsSqrt … false`. -/
+theorem circle_contains (sq : K → K) (c : Pt K) (r : K) (p : Pt K) :
+    (letI := sqrtOf sq; model2d.Circle_Contains ⟨gp2 c, r⟩ (gp2 p)) = sphereContainsSqrt sq false c r p := by
+  simp only [model2d.Circle_Contains, model2d.Coord_Dist, sphereContainsSqrt, distSq, get0, get1, get2]
+  rfl
+
+/-- `model2d.Rect.Contains` is `inB false` (the 2-D `InBounds` and the test of every checked 2-D wrapper). -/
+theorem rect2_contains (lo hi p : Pt K) :
+    model2d.Rect_Contains ⟨gp2 lo, gp2 hi⟩ (gp2 p) = inB false ⟨lo, hi⟩ p := by
+  unfold model2d.Rect_Contains inB axisOk
+  simp only [model2d.Coord_Min, model2d.Coord_Max, feq_mn, feq_mx]
+  rw [Bool.eq_iff_iff]
+  simp only [Bool.and_eq_true, Bool.or_eq_true, decide_eq_true_eq, Bool.not_false]
+  simp only [get0, get1, get2]
+  tauto
+
+/-- `model2d.LinearConstraint.Contains` is the half-space test of `polyContains` on points and normals
+whose unused third slot is zero. -/
+theorem linear_constraint2_contains (n : Pt K) (m : K) (p : Pt K) (hz : p.z = 0) :
+    model2d.LinearConstraint_Contains ⟨gp2 n, m⟩ (gp2 p) = decide (pdot p n ≤ m) := by
+  have : pdot p n = p.x * n.x + p.y * n.y := by
+    show p.x * n.x + p.y * n.y + p.z * n.z = _
+    rw [hz]; ring
+  simp only [model2d.LinearConstraint_Contains, model2d.Coord_Dot, this]
+  rfl
+
+@[reducible] def rows2 (a b : Pt K) : model2d.Matrix2 K := ⟨a.x, a.y, b.x, b.y⟩
+
+theorem matrix2_det (a b : Pt K) : model2d.Matrix2_Det (rows2 a b) = det2 a b := rfl
+
+theorem matrix2_mulColumnInv (a b mx : Pt K) (det : K) :
+    model2d.Matrix2_MulColumnInv (rows2 a b) (gp2 mx) det = gp2 (mulColInv2 a b mx det) := rfl
+
+/-- `Coord.Norm()` of a 2-D normal is `pnorm` of the point with a zero third slot (the `rawArea` and the
+acceptance test of the 2-D `vertex`). -/
+theorem norm2_eq (sq : K → K) (a : Pt K) (hz : a.z = 0) :
+    (letI := sqrtOf sq; model2d.Coord_Norm (gp2 a)) = pnorm sq a := by
+  show sq (a.x * a.x + a.y * a.y) = sq (a.x * a.x + a.y * a.y + a.z * a.z)
+  rw [hz]; congr 1; ring
 
 end M3d.KernelsTie.Bounded
